@@ -67,10 +67,20 @@ func (s *TFIDFSearcher) buildIndex() {
 		}
 	}
 
-	// Step 2: Build vocabulary index
+	// Step 2: Build vocabulary index. Words are visited in sorted order: the indices - and with
+	// them the order in which the floating-point sums below and in Search run - must not depend
+	// on the iteration order of the maps, or norms and similarities differ in their last bits
+	// from one build, call or process to the next
+	allWords := make([]string, 0, len(wordCounts))
+	for word := range wordCounts {
+		allWords = append(allWords, word)
+	}
+	sort.Strings(allWords)
+
 	s.vocabulary = make(map[string]int)
 	vocabIndex := 0
-	for word, docCount := range wordCounts {
+	for _, word := range allWords {
+		docCount := wordCounts[word]
 		// Include unique terms (docCount >= 1) as they are highly discriminating
 		// Upper bound at 80% to exclude only very common terms
 		maxDocs := len(s.commands) * 8 / 10
@@ -85,9 +95,10 @@ func (s *TFIDFSearcher) buildIndex() {
 
 	// Step 3: Calculate IDF for each word
 	s.idf = make([]float64, len(s.vocabulary))
-	for word, idx := range s.vocabulary {
-		docCount := wordCounts[word]
-		s.idf[idx] = math.Log(float64(len(s.commands)) / float64(docCount))
+	for _, word := range allWords {
+		if idx, exists := s.vocabulary[word]; exists {
+			s.idf[idx] = math.Log(float64(len(s.commands)) / float64(wordCounts[word]))
+		}
 	}
 
 	// Step 4: Calculate TF for each command and document norms
@@ -107,8 +118,8 @@ func (s *TFIDFSearcher) buildIndex() {
 		s.commandTF[i] = make(map[int]float64)
 		var norm float64
 
-		for termIdx, count := range termCounts {
-			tf := float64(count) / float64(len(words))
+		for _, termIdx := range sortedTerms(termCounts) {
+			tf := float64(termCounts[termIdx]) / float64(len(words))
 			tfidf := tf * s.idf[termIdx]
 			s.commandTF[i][termIdx] = tfidf
 			norm += tfidf * tfidf
@@ -164,8 +175,9 @@ func (s *TFIDFSearcher) Search(query string, limit int) []TFIDFResult {
 
 	// Calculate query TF-IDF
 	var queryNorm float64
-	for termIdx, count := range queryTermCounts {
-		tf := float64(count) / float64(len(queryTokens))
+	queryTerms := sortedTerms(queryTermCounts)
+	for _, termIdx := range queryTerms {
+		tf := float64(queryTermCounts[termIdx]) / float64(len(queryTokens))
 		tfidf := tf * s.idf[termIdx]
 		queryVector[termIdx] = tfidf
 		queryNorm += tfidf * tfidf
@@ -179,7 +191,7 @@ func (s *TFIDFSearcher) Search(query string, limit int) []TFIDFResult {
 	// Calculate cosine similarity with each command
 	var results []TFIDFResult
 	for i := range s.commands {
-		similarity := s.cosineSimilarity(queryVector, queryNorm, s.commandTF[i], s.commandNorms[i])
+		similarity := s.cosineSimilarity(queryTerms, queryVector, queryNorm, s.commandTF[i], s.commandNorms[i])
 
 		if similarity > 0.01 { // Minimum similarity threshold
 			results = append(results, TFIDFResult{
@@ -192,7 +204,10 @@ func (s *TFIDFSearcher) Search(query string, limit int) []TFIDFResult {
 
 	// Sort by similarity (descending)
 	sort.Slice(results, func(i, j int) bool {
-		return results[i].Similarity > results[j].Similarity
+		if results[i].Similarity != results[j].Similarity {
+			return results[i].Similarity > results[j].Similarity
+		}
+		return results[i].CommandIndex < results[j].CommandIndex // equal similarity: database order
 	})
 
 	// Apply limit
@@ -203,21 +218,33 @@ func (s *TFIDFSearcher) Search(query string, limit int) []TFIDFResult {
 	return results
 }
 
-// cosineSimilarity calculates cosine similarity between query and document vectors
-func (s *TFIDFSearcher) cosineSimilarity(queryVector map[int]float64, queryNorm float64,
+// cosineSimilarity calculates cosine similarity between query and document vectors.
+// queryTerms lists the keys of queryVector in ascending order, so that the dot product is
+// summed in the same order on every call.
+func (s *TFIDFSearcher) cosineSimilarity(queryTerms []int, queryVector map[int]float64, queryNorm float64,
 	docVector map[int]float64, docNorm float64) float64 {
 	if queryNorm == 0 || docNorm == 0 {
 		return 0
 	}
 
 	var dotProduct float64
-	for termIdx, queryTFIDF := range queryVector {
+	for _, termIdx := range queryTerms {
 		if docTFIDF, exists := docVector[termIdx]; exists {
-			dotProduct += queryTFIDF * docTFIDF
+			dotProduct += queryVector[termIdx] * docTFIDF
 		}
 	}
 
 	return dotProduct / (queryNorm * docNorm)
+}
+
+// sortedTerms returns the keys of a term-count map in ascending order.
+func sortedTerms(counts map[int]int) []int {
+	terms := make([]int, 0, len(counts))
+	for termIdx := range counts {
+		terms = append(terms, termIdx)
+	}
+	sort.Ints(terms)
+	return terms
 }
 
 // GetVocabularyStats returns statistics about the built vocabulary
